@@ -79,8 +79,9 @@ def _matrix_case(args):
     neval = 0
     d = tempfile.mkdtemp(dir=wd)
     try:
-        for enc, layer, dtype, layout in combos:
-            p = os.path.join(d, 'm.h5ad')
+        for ci, (enc, layer, dtype, layout) in enumerate(combos):
+            # a fresh path per combination: a call that raised may keep the previous file open
+            p = os.path.join(d, f'm{ci}.h5ad')
             with warnings.catch_warnings():
                 warnings.simplefilter('ignore')
                 write_matrix(p, M, enc, layer, dtype, layout)
@@ -124,6 +125,9 @@ def _matrix_case(args):
                 del it
             except Exception as e:
                 out.append(('rows:batch-exception', f'{tag} matrix={s["matrix"]}: {type(e).__name__}: {e}'))
+                it = None
+                import gc
+                gc.collect()
     finally:
         shutil.rmtree(d, ignore_errors=True)
     return out, neval, traces
